@@ -1,0 +1,11 @@
+//go:build !verif
+
+// Package verifhook holds verification hook points. Without the build tag "verif" every
+// hook is an empty function that the compiler inlines away.
+package verifhook
+
+// Crash marks a point at which a verification run may simulate a process crash.
+func Crash(name string) {}
+
+// Point marks a point at which a verification run may force a context switch.
+func Point(name string) {}
